@@ -128,6 +128,36 @@ def cq_items_cc(trace, it: Interner) -> str:
                             for op, oc, _, d in trace if op[0] != "dispatch_error"])
 
 
+# alphabet op_x of model/GraphExt.v: OpC op_c + the transactions outside the 15-operation alphabet
+def cq_op_x(op, it: Interner) -> str:
+    n = op[0]
+    if n == "skip_overtaken":
+        return it.strs(f"OpSkipOvertaken {common.coq_str(op[1])}")
+    if n == "invalidate_steps":
+        return it.strs(f"OpInvalidateSteps {e2.cq_strs(op[1])}")
+    if n == "mark_steps_pending":
+        return it.strs(f"OpMarkStepsPending {e2.cq_strs(op[1])}")
+    if n == "revert_optional":
+        return it.strs(f"OpRevertOptional {e2.cq_strs(op[1])}")
+    if n == "reset_interrupted_raw":
+        return "OpResetInterruptedRaw"
+    if n == "init_boot":
+        return "OpInitBoot " + ("None" if op[1] is None else f"(Some {op[1]})")
+    if n == "frame":
+        return "OpFrame"
+    return f"OpC ({cq_op_cc(op, it)})"
+
+
+def cq_ops_x(trace, it: Interner) -> str:
+    ops = common.coq_list([cq_op_x(t[0], it) for t in trace if t[0][0] != "dispatch_error"])
+    return it.name(ops, "list op_x")
+
+
+def cq_items_x(trace, it: Interner) -> str:
+    return common.coq_list([f"({cq_op_x(op, it)}, {e2.OUTC[oc]}, {cq_dump_c(d, it)})"
+                            for op, oc, _, d in trace if op[0] != "dispatch_error"])
+
+
 def _signal_exit(rc: int) -> bool:
     """coqc (or the `timeout` wrapper) was terminated from outside: timeout's own 124 (TERM sent
     after the limit), 137 (SIGKILL: the OOM killer, or timeout -k), 143 (SIGTERM), or Popen's negative
